@@ -21,7 +21,7 @@ from ..core import Violation, Inconclusive, short
 from ..sched import Sim, SimCrash
 from ..simfs import SimFS
 
-RUNS = {"quick": 3000, "thorough": 200000}
+RUNS = {"quick": 4000, "thorough": 200000}
 SELFCHECK = {"quick": 24, "thorough": 64}
 CHUNK = 100
 LEVEL = "exploration"
